@@ -365,9 +365,11 @@ func (idx *IVFPQIndex) Remove(vector VectorNode) error {
 	id := vector.ID()
 
 	// ════════════════════════════════════════════════════════════════════════
-	// STEP 1: CHECK EXISTENCE (READ LOCK - CHEAPER)
+	// STEP 1: CHECK EXISTENCE (under the write lock: check and mark must be one atomic step,
+	// otherwise a concurrent Remove+Flush between them leaves a tombstone for an id that is gone)
 	// ════════════════════════════════════════════════════════════════════════
-	idx.mu.RLock()
+	idx.mu.Lock()
+	defer idx.mu.Unlock()
 	exists := false
 	for _, list := range idx.lists {
 		for _, cv := range list {
@@ -381,9 +383,8 @@ func (idx *IVFPQIndex) Remove(vector VectorNode) error {
 		}
 	}
 	alreadyDeleted := idx.deletedNodes.Contains(id)
-	idx.mu.RUnlock()
 
-	// Fast-fail validation outside of write lock
+	// Fast-fail validation
 	if !exists {
 		return fmt.Errorf("vector with ID %d not found", id)
 	}
@@ -392,11 +393,9 @@ func (idx *IVFPQIndex) Remove(vector VectorNode) error {
 	}
 
 	// ════════════════════════════════════════════════════════════════════════
-	// STEP 2: MARK AS DELETED (WRITE LOCK - ONLY FOR BITMAP UPDATE)
+	// STEP 2: MARK AS DELETED (same write-locked region)
 	// ════════════════════════════════════════════════════════════════════════
-	idx.mu.Lock()
 	idx.deletedNodes.Add(id)
-	idx.mu.Unlock()
 
 	return nil
 }
